@@ -173,7 +173,10 @@ pub fn c13(ctx: &Ctx, subj: &dyn DynSubject, ty: &Ty, rep: &mut Report) {
 pub fn c14(ctx: &Ctx, subj: &dyn DynSubject, ty: &Ty, rep: &mut Report) {
     let strat = with_entropy(strategy_for(ctx, ty, GenCfg { max_len: 6, long: false }), 64);
     let budget = if ctx.tier == Tier::Thorough { 800 } else { 200 };
-    crate::runner::run_cases(ctx, subj, rep, strat, ctx.cases, &|case, log| {
+    // the enumerated values (payloads of more than a mebibyte among them) go through the same schedules
+    let is_big = |v: &Val| matches!(v, Val::Rec(f) if matches!(f.first(), Some(Val::Seq(x)) if x.len() > 50_000) || matches!(f.first(), Some(Val::Str(x)) if x.len() > 50_000));
+    let pre: Vec<Val> = sweep_vals(ctx, ty).into_iter().filter(|v| is_big(v)).map(|v| Val::Rec(vec![v, Val::P((0..64u32).map(|i| (i * 37 + 11) as u8).collect())])).collect();
+    crate::runner::run_cases_pre(ctx, subj, rep, &pre, strat, ctx.cases, &|case, log| {
         let (v, ent) = split_entropy(case);
         let mut ent = Ent::new(ent);
         self_check(subj, v)?;
@@ -181,6 +184,7 @@ pub fn c14(ctx: &Ctx, subj: &dyn DynSubject, ty: &Ty, rep: &mut Report) {
         let (bytes, _) = ser_bytes(subj, v)?;
         let enc = model_enc_fit(ctx, subj, ty, v, bytes.len(), log)?;
         let len = bytes.len();
+        let budget = if len > 100_000 { 24 } else { budget };
         log.sample = Some(sample_json(subj, v, Some(&bytes), json!({"schedules": "chunked 1 / primes / random, interrupted, fail@k for every k"})));
         let rnd: Vec<usize> = (0..8).map(|_| 1 + ent.pick(17)).collect();
         let benign = vec![
